@@ -27,7 +27,7 @@ func (ex *Exec) monitorOf(v ssa.Value) (string, T, types.Type, bool) {
 func (ex *Exec) pkgSpec() *PkgSpec { return ex.P.specs[ex.fn.Pkg.Pkg.Path()] }
 
 func (ex *Exec) evalMonitorInv(st *State, predName string, ref T, owner types.Type) (T, error) {
-	pd := ex.P.pred(ex.fn.Pkg.Pkg, predName)
+	pd := ex.P.pred(owner.(*types.Named).Obj().Pkg(), predName)
 	if pd == nil {
 		return T{}, fmt.Errorf("monitor invariant predicate %s not found", predName)
 	}
@@ -61,12 +61,28 @@ func (ex *Exec) monitorRelease(st *State, key string, lockArg ssa.Value, pos tok
 }
 
 func (ex *Exec) monitorAcquire(st *State, key string, lockArg ssa.Value, pos token.Pos) {
-	ps := ex.pkgSpec()
-	if ps == nil {
-		return
-	}
 	mname, ref, owner, ok := ex.monitorOf(lockArg)
 	if !ok {
+		return
+	}
+	ex.acquireMonitor(st, mname, ref, owner)
+	ex.nacq++
+	if ex.nacq == 1 && ex.curInstr != nil && ex.curInstr.Block().Index == 0 {
+		// the function's linearisation point: old() refers to the state seen under the lock
+		keep := ex.entry
+		ex.entry = st.clone()
+		ex.entry.guard = keep.guard
+		ex.acquiredFirst = mname
+	}
+}
+
+// acquireMonitor: other threads may have run; guarded fields are arbitrary but satisfy the invariant.
+func (ex *Exec) acquireMonitor(st *State, mname string, ref T, owner types.Type) {
+	var ps *PkgSpec
+	if n, ok := owner.(*types.Named); ok && n.Obj().Pkg() != nil {
+		ps = ex.P.specs[n.Obj().Pkg().Path()]
+	}
+	if ps == nil {
 		return
 	}
 	fields, guarded := ps.Guarded[mname]
